@@ -332,31 +332,13 @@ replay_proof! {
     }
 }
 
-// the same directory opened with a one-item cache: the entries of the closed
-// chunk are evictable, get evicted while the newer chunk is replayed, and are
-// read back from the chunk file (C02 "cache limits differ between runs"; the
-// closed-chunk read path of C07)
-// @harness name=c02_two_chunks_small_cache prop=C02 tier=thorough timeout=2400 fs=512
-replay_proof! {
-    unwind = 24, crc = off,
-    fn c02_two_chunks_small_cache() {
-        let mut m = empty_model();
-        let (end0, end1) = two_chunks(&mut m);
-        match open(replay_config_cache(None, Some(1), None)) {
-            Some(rl) => {
-                assert_matches(&rl, &m);
-                // the oldest entry: evicted, read back from the closed chunk's file
-                assert_read(&rl, &m, m.e[0].0 .1 as u64, m.e[0].0 .1 as u64 + 1);
-                let st = rl.stat();
-                assert!(st.payload_cache_item_count == 1, "the one-item cache keeps exactly the entry of the open chunk");
-                assert!(untouched(0, end0) && untouched(1, end1));
-                kani::cover!(true, "entries of the closed chunk read back from its file");
-                core::mem::forget(rl);
-            }
-            None => assert!(false, "open of a cleanly written directory failed"),
-        }
-    }
-}
+// NOT encoded: reading an entry of a closed chunk back from its file after the
+// restart (`read` on a cache miss -> `RaftLogWAL::load_log_payload` ->
+// `Chunk::read_record`). Through `read` with a one-item cache it did not fit
+// in 12 GB (the cache lookup is symbolic behind Arc<RwLock>); calling
+// `load_log_payload` directly the record's segment read back from the index is
+// not a constant, the pread buffer gets a symbolic length and the decoder is
+// walked for every record kind (no result in 15 min).
 
 // after a restart the store continues with the same semantics: one more
 // append, compared with the model, journalled right after the replayed bytes
@@ -834,6 +816,65 @@ replay_proof! {
             None => {
                 kani::cover!(true, "refused");
             }
+        }
+    }
+}
+
+// the newest chunk holds its head snapshot (non-empty, at a non-zero offset:
+// older chunks were purged away) followed by a torn record: the snapshot is
+// the only durable copy of the acknowledged state and must survive recovery
+// @harness name=c03_head_only_torn prop=C03 tier=quick timeout=1200 fs=512
+replay_proof! {
+    unwind = 10, crc = off,
+    fn c03_head_only_torn() {
+        let mut m = empty_model();
+        let pg = any_id();
+        m.vote = Some(kani::any());
+        m.committed = Some(kani::any());
+        m.purged = Some(pg);
+        m.last = Some(pg);
+        let mut im = Img::new(0, 500);
+        let e0 = im.state(m.vote, m.last, m.committed, m.purged, None);
+        im.append(any_id(), P::new(1, kani::any()));
+        im.commit_len();
+        gfs::fs().files[0].len = (e0 + 6) as u64;
+        match open(replay_config(None)) {
+            Some(rl) => {
+                assert_matches(&rl, &m);
+                assert!(gfs::fs().files[0].exists && gfs::fs().files[0].len == e0 as u64, "the chunk holding the only copy of the state was not kept");
+                kani::cover!(true, "state snapshot survives a torn first record");
+                core::mem::forget(rl);
+            }
+            None => assert!(false, "open failed on a crash image with a torn tail"),
+        }
+    }
+}
+
+// the FIRST record after a chunk head is torn: the chunk keeps only its head
+// snapshot, it is cut back, stays closed, and a fresh chunk continues exactly
+// at its end (reusing it would append behind the file's stale cursor)
+// @harness name=c05_torn_first_record prop=C05 tier=quick timeout=1200 fs=512
+replay_proof! {
+    unwind = 10, crc = off,
+    fn c05_torn_first_record() {
+        let m = empty_model();
+        let mut im = Img::new(0, 0);
+        let e0 = im.state(None, None, None, None, None);
+        im.append(any_id(), P::new(1, kani::any()));
+        im.commit_len();
+        gfs::fs().files[0].len = (e0 + 9) as u64;
+        match open(replay_config(None)) {
+            Some(rl) => {
+                assert_matches(&rl, &m);
+                let f = &gfs::fs().files[0];
+                assert!(f.len == e0 as u64 && f.n_set_len == 1, "torn tail not cut away");
+                assert!(rl.wal.closed.len() == 1, "a truncated chunk must not be reused for appending");
+                assert!(rl.wal.open.chunk.global_start() == e0 as u64, "new chunk does not start at the recovered end");
+                assert_open_file_consistent(&rl);
+                kani::cover!(true, "recovered: first record after the head torn");
+                core::mem::forget(rl);
+            }
+            None => assert!(false, "open failed on a crash image with a torn tail"),
         }
     }
 }
